@@ -243,6 +243,8 @@ func (r *stateResolver) resolveAuthBlock(events []PDU, userIDForSender spec.User
 	// (SPEC: This ensures that we always pick a state event for this type and state key.
 	//  Note that if all the events fail auth checks we will still pick the "oldest" event.)
 	result := block[0].event
+	// Remember what is registered for this key (an auth event supplied by the caller).
+	previous := r.lookupAuthEvent(result.Type(), *result.StateKey())
 	// Temporarily add the candidate event to the auth events.
 	r.addAuthEvent(result)
 	for i := 1; i < len(block); i++ {
@@ -263,7 +265,34 @@ func (r *stateResolver) resolveAuthBlock(events []PDU, userIDForSender spec.User
 	// We'll add it back later when all events of the same type have been resolved.
 	// (SPEC: This is done to avoid the result of state resolution depending on the iteration order)
 	r.removeAuthEvent(result.Type(), *result.StateKey())
+	if previous != nil {
+		// Put back what the caller supplied: the blocks of one type must all be
+		// resolved against the same auth events, whatever order they come in.
+		r.addAuthEvent(previous)
+	}
 	return result
+}
+
+func (r *stateResolver) lookupAuthEvent(eventType, stateKey string) PDU {
+	switch eventType {
+	case spec.MRoomCreate:
+		if stateKey == "" {
+			return r.resolvedCreate
+		}
+	case spec.MRoomPowerLevels:
+		if stateKey == "" {
+			return r.resolvedPowerLevels
+		}
+	case spec.MRoomJoinRules:
+		if stateKey == "" {
+			return r.resolvedJoinRules
+		}
+	case spec.MRoomMember:
+		return r.resolvedMembers[spec.SenderID(stateKey)]
+	case spec.MRoomThirdPartyInvite:
+		return r.resolvedThirdPartyInvites[stateKey]
+	}
+	return nil
 }
 
 // resolveNormalBlock resolves a block of normal state events with the same state key to a single event.
